@@ -4,6 +4,7 @@ package vhc
 
 import (
 	"crypto/ecdsa"
+	"crypto/ed25519"
 	"crypto/elliptic"
 	"crypto/rand"
 	"crypto/x509"
@@ -88,4 +89,14 @@ func TestKeyPair(which int) ([]byte, *ecdsa.PrivateKey) {
 		priv *ecdsa.PrivateKey
 	}{der, priv}
 	return der, priv
+}
+
+// Ed25519Key returns a deterministic Ed25519 private key (64 bytes: seed || public key).
+// Symbolically: a fixed 64-byte string whose last 32 bytes are the key's identity.
+func Ed25519Key(which int) ed25519.PrivateKey {
+	seed := make([]byte, ed25519.SeedSize)
+	for i := range seed {
+		seed[i] = byte(0x11*(which+1) + i)
+	}
+	return ed25519.NewKeyFromSeed(seed)
 }
